@@ -1,6 +1,7 @@
 import OdakProofs.Lemmas.Kernels
 import OdakProofs.Lemmas.PropagateLemmas
 import OdakModel.Propagator
+import OdakProofs.Lemmas.GenPropagator
 
 /-! # C06 – the propagator forward model is history-independent and matches its documented model -/
 namespace Odak
@@ -100,5 +101,63 @@ example (kf : Nat → Nat → CGrid ℝ 2 2) (A u : CGrid ℝ 2 2) :
     CacheInv kf (callStep kf A PState.init 1 0 u).1 ∧ ((callStep kf A PState.init 1 0 u).1.generated 1 0 = true) := by
   refine ⟨(callStep_spec kf A PState.init (cacheInv_init kf) 1 0 u).1, ?_⟩
   simp [callStep, PState.init, PState.generated]
+
+end Odak
+
+/-! ## The same statements for `propagator.__call__` / `reconstruct` REGENERATED from the Python source on this run
+  (`Gen.propagatorCallT`, `Gen.reconstructCallsT` of `OdakModel/Generated/Pipelines.lean`; tied to the hand model's `callStep`
+  by `gen_propagatorCallT_eq`).  They stop compiling when the cache key, the stored expression (e.g. kernel times aperture), the
+  kernel built for a propagator type, or the pad -> custom -> crop sequence of the source changes. -/
+namespace Odak
+open CGrid Gen
+
+variable {h w : Nat}
+
+/-- a sequence of calls `(depth, channel, field)` of the regenerated step function, collecting the outputs -/
+def runCallsT {α : Type} [Num α] (self_ : PropagatorSelf α h w) :
+    PState α (2 * h) (2 * w) → List (Nat × Nat × CGrid α h w) → Option (PState α (2 * h) (2 * w) × List (CGrid α h w))
+  | s, [] => some (s, [])
+  | s, (d, c, u) :: rest =>
+    (propagatorCallT self_ s u c d).bind fun r => (runCallsT self_ r.1 rest).map fun q => (q.1, r.2 :: q.2)
+
+/-- **history independence of the regenerated `__call__`**: for ANY sequence of calls over (depth, channel, field), the source
+    never raises and the i-th result is what a freshly built propagator returns for the same arguments:
+    `crop_center(custom(zero_pad(u), kernel(depth, channel), aperture))`; the cache invariant is preserved -/
+theorem C06_gen_history_independent (cfg : PropCfg ℝ) (A : CGrid ℝ (2 * h) (2 * w)) (s0 s1 s2 s3 : Nat)
+    (ops : List (Nat × Nat × CGrid ℝ h w)) (s : PState ℝ (2 * h) (2 * w)) (hs : CacheInv (kernelFor (2 * h) (2 * w) cfg) s) :
+    ∃ s', runCallsT (cfg.toSelf A s0 s1 s2 s3) s ops
+        = some (s', ops.map fun o => cropGrid (freshCall (kernelFor (2 * h) (2 * w) cfg) A o.1 o.2.1 (padGrid o.2.2))) ∧
+      CacheInv (kernelFor (2 * h) (2 * w) cfg) s' := by
+  induction ops generalizing s with
+  | nil => exact ⟨s, rfl, hs⟩
+  | cons o rest ih =>
+    obtain ⟨d, c, u⟩ := o
+    obtain ⟨h1, h2⟩ := callStep_spec (kernelFor (2 * h) (2 * w) cfg) A s hs d c (padGrid u)
+    obtain ⟨s', e, hs'⟩ := ih _ h1
+    refine ⟨s', ?_, hs'⟩
+    simp only [runCallsT, gen_propagatorCallT_eq, Option.bind_some, callStepPC, e, Option.map_some, List.map_cons, h2]
+
+/-- from a new object (empty cache): the first call stores the kernel the source builds for (depth, channel) WITHOUT the aperture,
+    under the key (depth, channel) -/
+theorem C06_gen_first_call_caches_kernel_without_aperture (cfg : PropCfg ℝ) (A : CGrid ℝ (2 * h) (2 * w)) (s0 s1 s2 s3 : Nat)
+    (d c : Nat) (u : CGrid ℝ h w) :
+    (propagatorCallT (cfg.toSelf A s0 s1 s2 s3) PState.init u c d).map (fun r => r.1.cache)
+      = some [((d, c), kernelFor (2 * h) (2 * w) cfg d c)] := by
+  simp [gen_propagatorCallT_eq, callStepPC, callStep, PState.init]
+
+/-- `reconstruct` makes the calls the hand model lists (frames > depths > channels; the field depends on frame and channel), so
+    each of its results is the fresh result too -/
+theorem C06_gen_reconstruct_history_independent (cfg : PropCfg ℝ) (A : CGrid ℝ (2 * h) (2 * w)) (s0 s1 s2 s3 : Nat)
+    (frames depths channels : Nat) (field : Nat → Nat → CGrid ℝ h w) (s : PState ℝ (2 * h) (2 * w))
+    (hs : CacheInv (kernelFor (2 * h) (2 * w) cfg) s) :
+    reconstructCallsT frames depths channels field = reconstructOps frames depths channels field ∧
+    ∃ s', runCallsT (cfg.toSelf A s0 s1 s2 s3) s (reconstructCallsT frames depths channels field)
+        = some (s', (reconstructCallsT frames depths channels field).map
+            fun o => cropGrid (freshCall (kernelFor (2 * h) (2 * w) cfg) A o.1 o.2.1 (padGrid o.2.2))) :=
+  ⟨rfl, (C06_gen_history_independent cfg A s0 s1 s2 s3 _ s hs).imp fun _ hh => hh.1⟩
+
+/-- the regenerated `custom` is the documented model: once the kernel, once the Fourier-plane aperture -/
+theorem C06_gen_call_is_documented_model {n m : Nat} (u H A : CGrid ℝ n m) : customT u H A = customDocumented u H A := by
+  rw [gen_customT_eq]; exact C06_call_is_documented_model u H A
 
 end Odak
